@@ -24,5 +24,5 @@ import frugal "github.com/Workiva/frugal/lib/go"
 
 func main() { frugal.VerifMain() }
 EOM
-go build "$@" -o "$S/e1" ./cmd/e1 > "$S/build.log" 2>&1 || { head -50 "$S/build.log"; echo "ENGINE-ERROR: instrumented build failed"; exit 2; }
+go build -trimpath "$@" -o "$S/e1" ./cmd/e1 > "$S/build.log" 2>&1 || { head -50 "$S/build.log"; echo "ENGINE-ERROR: instrumented build failed"; exit 2; }
 echo "built $S/e1"
